@@ -698,6 +698,22 @@ class Origins:
         if c == 'fn':
             return ('const', 'fn', strip_generics(k['def']))
         if c == 'promoted':
+            pj = (self.b.j.get('promoted') or [])
+            if k['idx'] < len(pj) and not getattr(self, '_in_promoted', False):
+                try:
+                    j = dict(self.b.j)
+                    j.update(pj[k['idx']])
+                    j['promoted'] = None
+                    pb = Body(self.b.facts, j)
+                    po = Origins(pb, transparent=True)
+                    po._in_promoted = True
+                    rets = pb.return_blocks()
+                    if rets:
+                        t = po.of_local(0, rets[0], 'term')
+                        if t[0] in ('const', 'agg'):
+                            return t
+                except Exception:
+                    pass
             return ('const', 'promoted', k['idx'])
         if c == 'zst':
             return ('const', 'zst', k.get('ty'))
@@ -851,6 +867,8 @@ def term_leaves(t):
     elif tag == 'phi':
         for a in t[1]:
             yield from term_leaves(a)
+    elif tag == 'captured':
+        yield from term_leaves(t[2])
 
 
 def term_has(t, pred):
@@ -885,6 +903,8 @@ def term_str(t, depth=0):
         return 'phi(%s)' % ' | '.join(term_str(a, depth + 1) for a in t[1])
     if tag == 'local':
         return '_%d' % t[1]
+    if tag == 'captured':
+        return '[%s=%s]' % (t[1], term_str(t[2], depth + 1))
     return '?%s' % (t[1:],)
 
 
@@ -1170,3 +1190,74 @@ def subst_params(t, args):
     if tag == 'agg':
         return ('agg', t[1], tuple(subst_params(a, args) for a in t[2])) + tuple(t[3:])
     return t
+
+
+def capture_terms(fx, closure_body, summaries=True):
+    """{capture name: origin term in the enclosing function} for a closure body."""
+    out = {}
+    parent_key = norm_path(closure_body.j.get('parent') or '')
+    for pb in fx.by_key.get(parent_key, []):
+        og = Origins(pb, summaries=summaries)
+        for bb, si, st in pb.statements():
+            if st['s'] == 'assign' and st['rv']['r'] == 'agg' and st['rv'].get('kind') in ('closure', 'coroutine') and \
+                    norm_path(st['rv']['def']) == closure_body.key:
+                for fname, op in zip(st['rv'].get('fields') or [], st['rv']['ops']):
+                    t = og.of_operand(op, bb, si)
+                    if pb.kind in ('closure', 'coroutine'):
+                        t = resolve_captures(fx, pb, t, summaries)
+                    out[fname] = t
+    return out
+
+
+def resolve_captures(fx, closure_body, term, summaries=True, _caps=None):
+    """Replace `arg1.<capture>` in a closure's term by the captured value's origin in the parent."""
+    if closure_body.kind not in ('closure', 'coroutine'):
+        return term
+    caps = _caps if _caps is not None else capture_terms(fx, closure_body, summaries)
+
+    def rec(t):
+        tag = t[0]
+        if tag == 'field' and t[2] == ('param', 1) and t[1] in caps:
+            return ('captured', t[1], caps[t[1]])
+        if tag in ('field', 'variant'):
+            return (tag, t[1], rec(t[2]))
+        if tag in ('index',):
+            return (tag, rec(t[1]))
+        if tag == 'discr':
+            return ('discr', rec(t[1])) + tuple(t[2:])
+        if tag == 'call':
+            return ('call', t[1], tuple(rec(a) for a in t[2]), t[3])
+        if tag == 'bin':
+            return ('bin', t[1], rec(t[2]), rec(t[3]))
+        if tag == 'un':
+            return ('un', t[1], rec(t[2]))
+        if tag == 'agg':
+            return ('agg', t[1], tuple(rec(a) for a in t[2])) + tuple(t[3:])
+        if tag == 'phi':
+            return ('phi', tuple(rec(a) for a in t[1]))
+        return t
+    return rec(term)
+
+
+def primary_edges(body, edges):
+    """Of the labelled switch edges [(bb, target, cond, label)], keep those of switches that are
+    not preceded by another switch on the same condition term (drop elaboration re-tests the
+    discriminant of a value after the user's match; those later ladders are not decisions)."""
+    groups = {}
+    for e in edges:
+        groups.setdefault(repr(e[2]), []).append(e)
+    out = []
+    for _k, es in groups.items():
+        sbs = sorted(set(e[0] for e in es))
+        # definition block(s) of the condition's root call: reachability must not wrap around it
+        roots = set(x[3] for x in term_leaves(es[0][2]) if x[0] == 'call' and len(x) > 3)
+        keep = set()
+        for sb in sbs:
+            later = False
+            for other in sbs:
+                if other != sb and sb in body.reachable(other, avoid_blocks=roots):
+                    later = True
+            if not later:
+                keep.add(sb)
+        out.extend(e for e in es if e[0] in keep)
+    return out
